@@ -1,0 +1,68 @@
+//go:build verif
+
+// Verification hooks (add-only, compiled only with -tags verif): expose the
+// unexported chunk divider and the chunk composer's completed messages to the
+// correspondence harness of the proof framework. Nothing here changes behaviour.
+
+package rtmp
+
+import (
+	"bytes"
+	"sort"
+
+	"github.com/q191201771/lal/pkg/base"
+)
+
+// VerifMsg is a copy of what the composer hands to its callback: the header
+// and payload an upper layer obtains through Stream.toAvMsg().
+type VerifMsg struct {
+	Header    base.RtmpHeader
+	Payload   []byte
+	Timestamp uint32 // Stream.timestamp (raw chunk header timestamp field)
+}
+
+// VerifStream is the per chunk stream memory left behind when RunLoop returns.
+type VerifStream struct {
+	Csid      int
+	Header    base.RtmpHeader
+	Timestamp uint32
+	AbsTsFlag bool
+	Buf       []byte
+}
+
+// VerifMessage2Chunks calls message2Chunks with an explicit previous header and chunk size.
+func VerifMessage2Chunks(payload []byte, header base.RtmpHeader, prevHeader *base.RtmpHeader, chunkSize int) []byte {
+	return message2Chunks(payload, &header, prevHeader, chunkSize)
+}
+
+// VerifSingleChunkHeader returns the 12 bytes writeSingleChunkHeader produces.
+func VerifSingleChunkHeader(csid int, bodyLen int, typeid uint8, streamid int) []byte {
+	out := make([]byte, 12)
+	writeSingleChunkHeader(out, csid, bodyLen, typeid, streamid)
+	return out
+}
+
+// VerifCompose runs ChunkComposer.RunLoop over data and copies every completed
+// message out. It returns the messages, the error RunLoop ended with, the peer
+// chunk size and the per-csid stream memory at that point (sorted by csid).
+func VerifCompose(data []byte, peerChunkSize uint32, reuseBuffer bool) (msgs []VerifMsg, err error, finalChunkSize uint32, streams []VerifStream) {
+	c := NewChunkComposer()
+	c.SetPeerChunkSize(peerChunkSize)
+	c.SetReuseBufferFlag(reuseBuffer)
+	err = c.RunLoop(bytes.NewReader(data), func(stream *Stream) error {
+		m := stream.toAvMsg()
+		p := make([]byte, len(m.Payload))
+		copy(p, m.Payload)
+		msgs = append(msgs, VerifMsg{Header: m.Header, Payload: p, Timestamp: stream.timestamp})
+		return nil
+	})
+	finalChunkSize = c.peerChunkSize
+	for csid, s := range c.csid2stream {
+		b := s.msg.buff.Bytes()
+		p := make([]byte, len(b))
+		copy(p, b)
+		streams = append(streams, VerifStream{Csid: csid, Header: s.header, Timestamp: s.timestamp, AbsTsFlag: s.absTsFlag, Buf: p})
+	}
+	sort.Slice(streams, func(i, j int) bool { return streams[i].Csid < streams[j].Csid })
+	return
+}
